@@ -37,6 +37,7 @@ type CallN struct {
 	ErrChecked bool     // followed by `err != nil → return …, err`
 	Tail       bool     // `return f(...)` (results flow to the caller)
 	Expr       *ast.CallExpr
+	Closures   []*ClosureN // function literals passed as arguments
 }
 
 type IfN struct {
@@ -95,6 +96,15 @@ type OtherN struct {
 	Text string
 	Stmt ast.Stmt
 }
+
+// ClosureN is a function literal bound to a local (`f := func(...) {...}`) or passed as an argument.
+type ClosureN struct {
+	Pos  token.Pos
+	Name string
+	Body Block
+}
+
+func (n *ClosureN) P() token.Pos { return n.Pos }
 
 type BranchN struct {
 	Pos token.Pos
@@ -682,6 +692,9 @@ func (x *extractor) callNode(call *ast.CallExpr) *CallN {
 	}
 	for _, a := range call.Args {
 		n.Args = append(n.Args, x.expr(a))
+		if fl, ok := ast.Unparen(a).(*ast.FuncLit); ok {
+			n.Closures = append(n.Closures, &ClosureN{Pos: fl.Pos(), Name: "arg", Body: x.block(fl.Body.List)})
+		}
 	}
 	return n
 }
@@ -898,6 +911,11 @@ func (x *extractor) isPureBuiltin(call *ast.CallExpr) bool {
 }
 
 func (x *extractor) assign(pos token.Pos, lhs []ast.Expr, tok token.Token, rhs []ast.Expr) []Node {
+	if len(rhs) == 1 && len(lhs) == 1 {
+		if fl, ok := ast.Unparen(rhs[0]).(*ast.FuncLit); ok {
+			return []Node{&ClosureN{Pos: pos, Name: x.expr(lhs[0]), Body: x.block(fl.Body.List)}}
+		}
+	}
 	// single call on the right → CallN with result targets
 	if len(rhs) == 1 {
 		if call, ok := ast.Unparen(rhs[0]).(*ast.CallExpr); ok {
@@ -1003,6 +1021,9 @@ func dumpBlock(sb *strings.Builder, b Block, indent string) {
 			fmt.Fprintf(sb, "%sreturn %s\n", indent, strings.Join(n.Vals, ", "))
 		case *DeclN:
 			fmt.Fprintf(sb, "%sdecl %s\n", indent, n.Name)
+		case *ClosureN:
+			fmt.Fprintf(sb, "%sclosure %s\n", indent, n.Name)
+			dumpBlock(sb, n.Body, indent+"  ")
 		case *BranchN:
 			fmt.Fprintf(sb, "%s%s\n", indent, n.Tok)
 		case *OtherN:
@@ -1054,6 +1075,12 @@ func walkBlock(b Block, gs []Guard, f func(n Node, gs []Guard)) {
 			}
 		case *LoopN:
 			walkBlock(n.Body, append(gs[:len(gs):len(gs)], Guard{Kind: "loop", Text: "loop " + n.Over, Node: n}), f)
+		case *ClosureN:
+			walkBlock(n.Body, append(gs[:len(gs):len(gs)], Guard{Kind: "closure", Text: "closure " + n.Name, Node: n}), f)
+		case *CallN:
+			for _, cl := range n.Closures {
+				walkBlock(cl.Body, append(gs[:len(gs):len(gs)], Guard{Kind: "closure", Text: "closure arg", Node: cl}), f)
+			}
 		}
 	}
 }
